@@ -17,6 +17,42 @@ type chanState struct {
 	closed  bool
 	senders []*pendingSend // parked senders on an unbuffered channel
 	hb      any            // per-channel vector clocks (HB monitor)
+	// unbuffered channels: threads blocked in a select (or plain receive) that offers a
+	// send / receive on this channel, in arrival order (Go's wait queues are FIFO)
+	selSend []*selWait
+	selRecv []*selWait
+}
+
+// selWait is one thread's offer on an unbuffered channel while it is blocked.
+type selWait struct {
+	t   *Thread
+	idx int // case index in its select (-1: plain receive)
+	val any // value offered (send offers)
+}
+
+// forcedCase is set on a blocked thread by the counterpart that completed the rendezvous.
+type forcedCase struct {
+	idx int
+	val any
+}
+
+func dropWait(l []*selWait, t *Thread) []*selWait {
+	out := l[:0]
+	for _, w := range l {
+		if w.t != t {
+			out = append(out, w)
+		}
+	}
+	return out
+}
+
+func firstOther(l []*selWait, t *Thread) *selWait {
+	for _, w := range l {
+		if w.t != t && w.t.forced == nil {
+			return w
+		}
+	}
+	return nil
 }
 
 type pendingSend struct {
@@ -107,7 +143,7 @@ func recvReady[C ~chan T | ~<-chan T, T any](ch C) bool {
 	if c == nil {
 		return false
 	}
-	return len(c.senders) > 0 || c.closed
+	return len(c.senders) > 0 || c.closed || firstOther(c.selSend, S.cur) != nil
 }
 
 func doRecv[C ~chan T | ~<-chan T, T any](ch C) (T, bool) {
@@ -129,6 +165,12 @@ func doRecv[C ~chan T | ~<-chan T, T any](ch C) (T, bool) {
 		hbTake(p)
 		return p.val.(T), true
 	}
+	if w := firstOther(c.selSend, S.cur); w != nil {
+		// rendezvous with a thread blocked in a select that offers a send on this channel
+		w.t.forced = &forcedCase{idx: w.idx}
+		hbAcquire(any(ch))
+		return w.val.(T), true
+	}
 	hbAcquire(any(ch))
 	var z T
 	return z, false
@@ -138,6 +180,19 @@ func Recv2[C ~chan T | ~<-chan T, T any](ch C) (T, bool) {
 	if !active() {
 		v, ok := <-ch
 		return v, ok
+	}
+	if cap(ch) == 0 {
+		c := st(any(ch))
+		cur := S.cur
+		c.selRecv = append(c.selRecv, &selWait{t: cur, idx: -1})
+		Block("recv", chanName(any(ch)), func() bool { return cur.forced != nil || recvReady(ch) })
+		c.selRecv = dropWait(c.selRecv, cur)
+		if f := cur.forced; f != nil {
+			cur.forced = nil
+			hbAcquire(any(ch))
+			return f.val.(T), true
+		}
+		return doRecv(ch)
 	}
 	Block("recv", chanName(any(ch)), func() bool { return recvReady(ch) })
 	return doRecv(ch)
@@ -152,6 +207,9 @@ func Recv[C ~chan T | ~<-chan T, T any](ch C) T {
 type Case interface {
 	ready() bool
 	fire()
+	register(idx int)   // unbuffered channels: announce the offer while blocked
+	unregister()
+	force(f *forcedCase) // the counterpart completed the rendezvous for this case
 	rcase() reflect.SelectCase // free-running: the real operation
 	rset(v reflect.Value, ok bool)
 	name() string
@@ -167,6 +225,19 @@ func RecvCase[C ~chan T | ~<-chan T, T any](c C) *RecvC[C, T] { return &RecvC[C,
 func (r *RecvC[C, T]) ready() bool                            { return recvReady(r.ch) }
 func (r *RecvC[C, T]) fire()                                  { r.V, r.OK = doRecv(r.ch) }
 func (r *RecvC[C, T]) name() string                           { return "recv:" + chanName(any(r.ch)) }
+func (r *RecvC[C, T]) register(idx int) {
+	if cap(r.ch) == 0 {
+		c := st(any(r.ch))
+		c.selRecv = append(c.selRecv, &selWait{t: S.cur, idx: idx})
+	}
+}
+func (r *RecvC[C, T]) unregister() {
+	if cap(r.ch) == 0 {
+		c := st(any(r.ch))
+		c.selRecv = dropWait(c.selRecv, S.cur)
+	}
+}
+func (r *RecvC[C, T]) force(f *forcedCase) { r.V, r.OK = f.val.(T), true; hbAcquire(any(r.ch)) }
 func (r *RecvC[C, T]) rcase() reflect.SelectCase {
 	return reflect.SelectCase{Dir: reflect.SelectRecv, Chan: reflect.ValueOf(r.ch)}
 }
@@ -187,9 +258,32 @@ func (s *SendC[T]) ready() bool {
 	if cap(s.ch) > 0 {
 		return len(s.ch) < cap(s.ch)
 	}
-	panic("vrt: select-send on an unbuffered channel is not modelled")
+	c := chans[any(s.ch)]
+	return c != nil && firstOther(c.selRecv, S.cur) != nil
 }
-func (s *SendC[T]) fire()        { hbSend(any(s.ch)); s.ch <- s.v }
+func (s *SendC[T]) fire() {
+	hbSend(any(s.ch))
+	if cap(s.ch) > 0 {
+		s.ch <- s.v
+		return
+	}
+	// unbuffered: hand the value to the first blocked receiver; it completes with that case
+	w := firstOther(st(any(s.ch)).selRecv, S.cur)
+	w.t.forced = &forcedCase{idx: w.idx, val: any(s.v)}
+}
+func (s *SendC[T]) register(idx int) {
+	if cap(s.ch) == 0 {
+		c := st(any(s.ch))
+		c.selSend = append(c.selSend, &selWait{t: S.cur, idx: idx, val: any(s.v)})
+	}
+}
+func (s *SendC[T]) unregister() {
+	if cap(s.ch) == 0 {
+		c := st(any(s.ch))
+		c.selSend = dropWait(c.selSend, S.cur)
+	}
+}
+func (s *SendC[T]) force(f *forcedCase) {}
 func (s *SendC[T]) name() string { return "send:" + chanName(any(s.ch)) }
 func (s *SendC[T]) rcase() reflect.SelectCase {
 	return reflect.SelectCase{Dir: reflect.SelectSend, Chan: reflect.ValueOf(s.ch), Send: reflect.ValueOf(&s.v).Elem()}
@@ -222,10 +316,17 @@ func Select(hasDefault bool, cases ...Case) int {
 		}
 		names += c.name()
 	}
+	cur := S.cur
 	if hasDefault {
 		Yield("select-default", names)
 	} else {
+		for i, c := range cases {
+			c.register(i)
+		}
 		Block("select", names, func() bool {
+			if cur.forced != nil {
+				return true
+			}
 			for _, c := range cases {
 				if c.ready() {
 					return true
@@ -233,6 +334,14 @@ func Select(hasDefault bool, cases ...Case) int {
 			}
 			return false
 		})
+		for _, c := range cases {
+			c.unregister()
+		}
+		if f := cur.forced; f != nil {
+			cur.forced = nil
+			cases[f.idx].force(f)
+			return f.idx
+		}
 	}
 	var rdy []int
 	for i, c := range cases {
